@@ -160,9 +160,28 @@ func (g *keygen) run(args ...string) (string, error) {
 	cmd.Stdout, cmd.Stderr = &out, &errb
 	err := cmd.Run()
 	if err != nil {
+		// only a regular non-zero exit is an answer of the oracle; a timeout or a failure
+		// to start the process means the oracle is unavailable for this case
+		if _, isExit := err.(*exec.ExitError); !isExit || ctx.Err() != nil {
+			return out.String(), &oracleDown{err}
+		}
 		return out.String(), fmt.Errorf("%v: %s", err, strings.TrimSpace(errb.String()))
 	}
 	return out.String(), nil
+}
+
+// oracleDown marks an ssh-keygen invocation that gave no answer (timeout, cannot start).
+type oracleDown struct{ err error }
+
+func (o *oracleDown) Error() string { return "ssh-keygen gave no answer: " + o.err.Error() }
+
+func isDown(c *vf.Ctx, err error) bool {
+	var d *oracleDown
+	if errors.As(err, &d) {
+		c.Outcome("ssh-keygen gave no answer for a case (skipped)")
+		return true
+	}
+	return false
 }
 
 func (g *keygen) write(name string, data []byte) string {
@@ -269,9 +288,6 @@ func run(c *vf.Ctx) {
 		if err == nil {
 			defer os.RemoveAll(dir)
 			g = &keygen{bin: bin, dir: dir}
-			if v, err := g.run("-?"); err != nil && v == "" {
-				// any answer at all is fine; -? prints usage to stderr with status 1
-			}
 		}
 	}
 	if g.ok() {
@@ -311,6 +327,9 @@ func partA(c *vf.Ctx, keys []tkey, g *keygen) {
 	for _, k := range keys {
 		for _, p := range passes {
 			comments := []string{"", "user@host with spaces"}
+			if p.p == nil || c.Thorough {
+				comments = append(comments, "h\u00e9llo w\u00f6rld \u2713 \"quoted\"")
+			}
 			if p.p == nil {
 				// every padding length of the 8 byte block: comment lengths 0..7
 				for n := 1; n <= 7; n++ {
@@ -490,6 +509,10 @@ func oneA(c *vf.Ctx, t caseA, g *keygen, idx int) {
 		path := g.write(fmt.Sprintf("a%d", idx), pemText)
 		blob, comment, err := g.pubOf(path, string(t.pass))
 		c.Eval(1)
+		if isDown(c, err) {
+			os.Remove(path)
+			return
+		}
 		if err != nil {
 			c.Violation("ssh-keygen -y rejects a file written by MarshalPrivateKey", det(err.Error()))
 		} else {
@@ -502,12 +525,13 @@ func oneA(c *vf.Ctx, t caseA, g *keygen, idx int) {
 		}
 		if t.pass != nil {
 			if c.Thorough || t.pname == "x" {
-				if _, _, err := g.pubOf(path, "definitely wrong"); err == nil {
+				if _, _, err := g.pubOf(path, "definitely wrong"); err == nil && !isDown(c, err) {
 					c.Violation("ssh-keygen opens the encrypted file with a wrong passphrase", det(nil))
 				}
 			}
 			// let OpenSSH decrypt it, then decode everything with the reference model
-			if _, err := g.run("-p", "-P", string(t.pass), "-N", "", "-f", path); err != nil {
+			if _, err := g.run("-p", "-P", string(t.pass), "-N", "", "-f", path); isDown(c, err) {
+			} else if err != nil {
 				c.Violation("ssh-keygen -p cannot decrypt a file written by MarshalPrivateKeyWithPassphrase", det(err.Error()))
 			} else {
 				plain, _ := os.ReadFile(path)
@@ -652,6 +676,10 @@ func partB(c *vf.Ctx, keys []tkey, g *keygen) {
 			if !c.Thorough && ((!gn.sup && v.name != "plain") || (!v.sup && gn.name != "ed25519")) {
 				continue
 			}
+			// quick: cipher and round variants (independent of the key type) on two key types only
+			if !c.Thorough && gn.name != "ed25519" && gn.name != "ecdsa384" && v.name != "plain" && v.name != "pass-40" {
+				continue
+			}
 			id := fmt.Sprintf("B2/%s/%s", gn.name, v.name)
 			path := fmt.Sprintf("%s-%d", base, vi)
 			os.WriteFile(path, plain, 0o600)
@@ -744,6 +772,9 @@ func partB1enc(c *vf.Ctx, keys []tkey) {
 				}
 			}
 			for _, r := range rounds {
+				if !c.Thorough && r == 16 && k.name != "ed25519" && k.name != "p256" && k.name != "rsa1024" {
+					continue
+				}
 				for _, sl := range salts {
 					for ci, cm := range comments {
 						p := []byte("x")
@@ -1100,10 +1131,13 @@ func partC(c *vf.Ctx, keys []tkey, g *keygen) {
 			c.Sample(map[string]any{"part": "C", "key": cs.t.name, "fault": cs.ft.name, "go": err.Error(), "reference": refReason})
 		}
 		// OpenSSH's decision on the same bytes (trace conformance only, never deciding)
-		if g.ok() && len(cs.comment) == 0 && (c.Thorough || (cs.t.k.Type == sr.ED25519 && !cs.ft.keepPad)) {
+		if g.ok() && len(cs.comment) == 0 && c.Thorough {
 			path := g.write(fmt.Sprintf("c%d", i), pemText)
 			_, _, kerr := g.pubOf(path, "")
 			os.Remove(path)
+			if isDown(c, kerr) {
+				return
+			}
 			a := map[bool]string{true: "accepts", false: "rejects"}
 			c.Add(fmt.Sprintf("faulted files: go %s / ssh-keygen -y %s", a[err == nil], a[kerr == nil]), 1)
 			if (err == nil) != (kerr == nil) {
